@@ -240,8 +240,33 @@ def split_words(s):
     return out
 
 
+def ref_literals(text):
+    """SPEC: the string literals of a text, by the standard grammar (a backslash escapes the next character)"""
+    out, i = [], 0
+    while i < len(text):
+        c = text[i]
+        if c in '"\'':
+            j = i + 1
+            while j < len(text) and text[j] != c:
+                j += 2 if text[j] == '\\' else 1
+            out.append(text[i:j + 1])
+            i = j + 1
+        else:
+            i += 1
+    return out
+
+
 def render(q, sp):
-    """query record -> list of clauses, each a list of words; then text"""
+    """query record -> (text, the literal texts in order of appearance)"""
+    words = render_words(q, sp)
+    lits = ref_literals(' '.join(words))
+    if sp.canon:
+        return ' '.join(words), lits
+    return layout(words, sp), lits
+
+
+def render_words(q, sp):
+    """query record -> list of clauses, each a list of words"""
     rng = sp.rng
     head = []
     clauses = []
@@ -314,9 +339,7 @@ def render(q, sp):
     if q['with'] is not None:
         w = sp.kw('with')[0]
         words += [w + '(' + q['with'] + ')'] if sp.coin(0.3) else [w, '(' + q['with'] + ')']
-    if sp.canon:
-        return ' '.join(words)
-    return layout(words, sp)
+    return words
 
 
 COMMENTS = ['', ' a comment', ' select * from "x', " it's", ';', ' WHERE a1 == 2']
@@ -517,11 +540,15 @@ def canon_impl_internal(g, lang):
     return out
 
 
-def expected_internal(m, g, lang):
-    """restrict the model's result to what the implementation's probe reports (functions present, clauses present)"""
+def expected_internal(m, g, lang, c=None):
+    """restrict the model's result to what the implementation's probe reports (functions present, clauses present);
+    for a generated well-formed query also the SPEC: the extracted literals are the generated literal texts"""
     if not isinstance(g, dict) or g.get('missing'):
         return g
     e = {'clean': m['clean'], 'format': m['format'], 'literals': m['literals'], 'actions': m['actions']}
+    if c is not None and 'spec_literals' in c:
+        e['spec_literals'] = c['spec_literals']
+        g['spec_literals'] = g.get('literals')
     if lang == 'py':
         e['format2'] = m['format2']
     if 'combined' in g:
@@ -544,7 +571,7 @@ def sizes(ctx):
 def describe_internal(c, e, g):
     if not isinstance(g, dict):
         return 'text layer probe failed on %r: %r' % (c['q'], g)
-    for k in ('clean', 'format', 'literals', 'format2', 'actions', 'details', 'combined'):
+    for k in ('clean', 'format', 'literals', 'format2', 'actions', 'details', 'combined', 'spec_literals'):
         if k in e and e.get(k) != g.get(k):
             return 'text layer (%s) %s differs on query %r: model %r, implementation %r' % (c['lang'], k, c['q'], e.get(k), g.get(k))
     return 'text layer differs on %r' % c['q']
@@ -558,6 +585,8 @@ def describe_query(c, e, g):
 def rel_query(c, e, g):
     if g != e['canon']:
         return False
+    if isinstance(g, dict) and g.get('error') == 'SyntaxError':
+        return False            # a generated query is well-formed: the text layer must not break its expressions
     if isinstance(g, dict) and 'rows' in g:
         for j, v in e['lit_cols'].items():
             for row in g['rows']:
@@ -613,7 +642,7 @@ def run(ctx):
             with_header = qi >= sz['queries']
             q, lits = gen_query(rng, lang)
             table, join = gen_tables(rng, lits)
-            canon = render(q, Spelling(None, lang))
+            canon, canon_lits = render(q, Spelling(None, lang))
             base = {'kind': 'query', 'lang': lang, 'table': table, 'join': join if q['join'] is not None else None,
                     'canon_q': canon, 'lit_cols': lit_columns(q)}
             if with_header:
@@ -623,14 +652,14 @@ def run(ctx):
             n_sp = sz['spellings'] if not with_header else max(2, sz['spellings'] // 4)
             seen = set()
             public[lang].append(dict(base, q=canon, is_canon=True))
-            internal[lang].append({'kind': 'internal', 'lang': lang, 'q': canon})
+            internal[lang].append({'kind': 'internal', 'lang': lang, 'q': canon, 'spec_literals': canon_lits})
             for _ in range(n_sp):
-                text = render(q, Spelling(rng, lang))
+                text, tl = render(q, Spelling(rng, lang))
                 if text in seen:
                     continue
                 seen.add(text)
                 public[lang].append(dict(base, q=text, is_canon=False))
-                internal[lang].append({'kind': 'internal', 'lang': lang, 'q': text})
+                internal[lang].append({'kind': 'internal', 'lang': lang, 'q': text, 'spec_literals': tl})
                 if text != canon:
                     ctx.nontriv((lang, text))
             ctx.stat('queries_%s_%s' % (lang, q['kind']))
@@ -659,7 +688,7 @@ def run(ctx):
             c['format2'] = m['format2']          # rbql-js does not export remove_redundant_table_name
         got = lib.run_impl_py('c08', cs) if lang == 'py' else lib.run_impl_js('c08', cs, shards=12)
         got = [canon_impl_internal(g, lang) for g in got]
-        exp = [expected_internal(m, g, lang) for m, g in zip(dec, got)]
+        exp = [expected_internal(m, g, lang, c) for m, g, c in zip(dec, got, cs)]
         ctx.compare(cs, exp, got, THEOREM, describe=describe_internal, shrink=shrink_internal)
         ctx.count(len(cs))
         # combine: implementation's combine(format, literals) vs the model's combine on the same inputs
@@ -746,7 +775,7 @@ def eval_internal(c, code):
     c = dict(c, format2=m['format2'])
     g = (lib.run_impl_py('c08', [c], shards=1) if c['lang'] == 'py' else lib.run_impl_js('c08', [c], shards=1))[0]
     g = canon_impl_internal(g, c['lang'])
-    return c, expected_internal(m, g, c['lang']), g
+    return c, expected_internal(m, g, c['lang'], c), g
 
 
 def replay(ctx, case):
